@@ -57,12 +57,12 @@ func (n *Node) Build(ic *geometry.IndexOptions) geojson.Object {
 	case "SimplePoint":
 		return geojson.NewSimplePoint(n.Rings[0][0])
 	case "LineString":
-		return geojson.NewLineString(geometry.NewLine(n.Rings[0], ic))
+		return geojson.NewLineString(newLineOwn(n.Rings[0], ic))
 	case "Polygon":
 		if len(n.Rings) == 0 {
 			return geojson.NewPolygon(geometry.NewPoly(nil, nil, ic))
 		}
-		return geojson.NewPolygon(geometry.NewPoly(n.Rings[0], n.Rings[1:], ic))
+		return geojson.NewPolygon(newPolyOwn(n.Rings[0], n.Rings[1:], ic))
 	case "Rect":
 		return geojson.NewRect(geometry.Rect{Min: n.Rings[0][0], Max: n.Rings[0][1]})
 	case "Circle":
@@ -76,7 +76,7 @@ func (n *Node) Build(ic *geometry.IndexOptions) geojson.Object {
 	case "MultiLineString":
 		var ls []*geometry.Line
 		for _, c := range n.Children {
-			ls = append(ls, geometry.NewLine(c.Rings[0], ic))
+			ls = append(ls, newLineOwn(c.Rings[0], ic))
 		}
 		return geojson.NewMultiLineString(ls)
 	case "MultiPolygon":
@@ -85,7 +85,7 @@ func (n *Node) Build(ic *geometry.IndexOptions) geojson.Object {
 			if len(c.Rings) == 0 {
 				ps = append(ps, geometry.NewPoly(nil, nil, ic))
 			} else {
-				ps = append(ps, geometry.NewPoly(c.Rings[0], c.Rings[1:], ic))
+				ps = append(ps, newPolyOwn(c.Rings[0], c.Rings[1:], ic))
 			}
 		}
 		return geojson.NewMultiPolygon(ps)
